@@ -340,11 +340,38 @@ class Marks:
         return ["set", ["r", rng.choice([0, 2, 3, 4, 5, 6, 8, 9])], ["c", rng.choice([0, 1, 7, -1, 2**31, 2**40])]]
 
 
+SUM_CONSTS = [0, 1, -1, 3, 8, -8, 100, 2**31 - 1, -2**31, 2**31, 2**40]
+
+
+def sum_operand(rng, prog, leaf):
+    """operands built from a Sum object (long register +- int): Sum - expression (Binary SUB since Sum.__sub__ was
+    repaired; it used to compute the sum), Sum +- int (a new Sum), and ONE Sum object used twice with different added
+    constants (let/ref: a real shared object; the first use used to change the constant the second one sees)"""
+    regs = [k for k in prog["owned"] if k < 10 and k != 7] or [1]
+    c = lambda: ["c", rng.choice(SUM_CONSTS)]
+    sm = lambda: [rng.choice("+-"), [rng.choice(["r", "r", "sr"]), rng.choice(regs)], c()]
+    t = rng.randrange(5)
+    if t == 0:
+        return ["-", sm(), leaf()]
+    if t == 1:
+        return [rng.choice("+-"), sm(), c()] if rng.random() < 0.7 else ["+", c(), sm()]
+    if t == 2:
+        return ["-", [rng.choice("+-"), sm(), c()], leaf()]
+    s = ["ref", "s"]
+    use = lambda: rng.choice([["+", s, c()], ["-", s, c()], ["+", c(), s], ["-", s, leaf()], s])
+    a, b = use(), use()
+    if a == s and b == s:
+        b = ["-", s, c()]
+    return ["let", "s", sm(), [rng.choice(["+", "-", "|", "^", "*"]), a, b]]
+
+
 def operand(rng, prog, kind=None, compound=0.2):
     kinds = [k for k in dsl.LEAF_KINDS if k != "c"]
     leaf = lambda: dsl.pick_leaf(rng, prog, kind or rng.choice(kinds))
     if rng.random() >= compound:
         return leaf()
+    if rng.random() < 0.2:
+        return sum_operand(rng, prog, leaf)
     r = rng.random()
     if r < 0.6:
         b = leaf() if rng.random() < 0.6 else ["c", rng.choice(COND_CONSTS)]
